@@ -275,6 +275,30 @@ inline void build_generators() {
                       ":bits" + std::to_string(bits),
                   g, c);
         }
+  // R. highly redundant point clouds: long runs of identical points code to far less than a bit per point
+  for (int n : {600, 5000})
+    for (int pk : {1, 2})
+      for (int method : {0, 1}) {
+        GeomDef g;
+        g.is_mesh = false;
+        g.num_points = n;
+        AttDef pos;
+        pos.type = GeometryAttribute::POSITION;
+        pos.nc = 3;
+        pos.uid = 0;
+        pos.dt = pk == 2 ? DT_INT32 : DT_FLOAT32;
+        for (int i = 0; i < n; ++i) {
+          const int run = i / (n / 4);  // four runs of identical points
+          if (pk == 2) pos.entries.push_back(bytes_of(std::vector<int32_t>{run * 10, run, -run}));
+          else pos.entries.push_back(bytes_of(std::vector<float>{run * 0.25f, 1.f - run * 0.125f, 0.5f * run}));
+        }
+        g.atts = {pos};
+        EncCfg c;
+        c.method = method;
+        c.speed_enc = c.speed_dec = 5;
+        c.qbits = {pk == 1 ? 11 : 0};
+        add_gen("R:redundant_cloud:n" + std::to_string(n) + ":pos" + std::to_string(pk) + ":m" + std::to_string(method), g, c);
+      }
   // E. a larger strip (16-bit indices, many symbols)
   for (int mk : {0, 1, 2, 3})
     for (int sp : {0, 10}) {
@@ -300,7 +324,42 @@ inline void build_generators() {
 // integer point clouds with N distinct values per component, N = 2^k + 1, so
 // that every raw-scheme symbol-count class (and with it every rANS precision
 // 12..20) occurs in a frozen stream. Too large for byte-level fault enumeration.
+inline GeomDef strip_mesh_for_corpus(int n, bool int_pos) {
+  GeomDef g;
+  g.is_mesh = true;
+  g.num_points = n;
+  AttDef pos;
+  pos.type = GeometryAttribute::POSITION;
+  pos.nc = 3;
+  pos.uid = 0;
+  pos.dt = int_pos ? DT_INT32 : DT_FLOAT32;
+  for (int i = 0; i < n; ++i) {
+    const int x = i % 64, y = i / 64, z = (i * 7) % 5;
+    if (int_pos) pos.entries.push_back(bytes_of(std::vector<int32_t>{x, y, z}));
+    else pos.entries.push_back(bytes_of(std::vector<float>{x * 0.5f, y * 0.25f, (float)z}));
+  }
+  g.atts = {pos};
+  for (int i = 0; i + 2 < n; ++i) {
+    if (i % 2 == 0) g.faces.push_back({i, i + 1, i + 2});
+    else g.faces.push_back({i + 1, i, i + 2});
+  }
+  return g;
+}
+
 inline void build_large_generators() {
+  // T. one stream per side of every size threshold of the format / the encoder's choices: 256 and 65536 points (index
+  // width of the sequential coder), 1000 faces (Edgebreaker sub-method), 40 points (prediction scheme)
+  for (int n : {39, 40, 41, 255, 256, 257, 1001, 1002, 1003, 65535, 65536, 65537})
+    for (int mk : {0, 1, 4}) {
+      if (n > 60000 && mk != 0) continue;  // the large ones only with raw sequential indices
+      for (int sp : {0, 5}) {
+        if (n > 60000 && sp != 5) continue;
+        GeomDef g = strip_mesh_for_corpus(n, n > 60000);
+        EncCfg c = gs::mesh_cfg(mk, sp);
+        c.qbits = {n > 60000 ? 0 : 12};
+        add_gen("T:strip" + std::to_string(n) + ":m" + std::to_string(mk) + ":s" + std::to_string(sp), g, c);
+      }
+    }
   for (int k = 2; k <= 14; ++k)
     for (int sp : {0, 5, 7}) {
       const int n = 3 * (1 << k) / 4 + 1;  // number of distinct symbols, inside the class [2^(k-1), 2^k)
